@@ -28,6 +28,24 @@ def bootstrap():
     warnings.filterwarnings("ignore", category=DeprecationWarning)
     import logging
     logging.disable(logging.CRITICAL)
+    _reach()
+
+
+def _reach():
+    """Opt-in (tools/reach.py): record which library lines the workload of a check executes.  Never on in registered commands."""
+    d = os.environ.get("VERIF_REACH_DIR")
+    if not d:
+        return
+    import atexit
+    import coverage
+    cov = coverage.Coverage(data_file=os.path.join(d, "cov"), data_suffix=True, include=[os.path.join(REPO_ROOT, "renormalizer", "*")],
+                            omit=["*/tests/*"], config_file=False)
+    cov.start()
+
+    def done():
+        cov.stop()
+        cov.save()
+    atexit.register(done)
 
 
 def case_seed(prop: str, tier: str, seed: int, idx: int):
